@@ -12,7 +12,7 @@
                              returns it whole; the expression parser then rejects it
                              (C10_sep_replaced_rejected below, Part B). *)
 From Coq Require Import List Arith NArith.
-From Verif Require Import ChecksumModel ChecksumSpec ChecksumTheorems ExprTreeModel ExprTreeTotal.
+From Verif Require Import ChecksumModel ChecksumSpec ChecksumTheorems ExprTreeModel ExprTreeTotal ExprTreeRt.
 Import ListNotations.
 Local Open Scope N_scope.
 
@@ -87,6 +87,16 @@ Print Assumptions C10_ck_is_bip380.
 Theorem C10_tree_total : forall s, no_panic_t (from_str_inner s).
 Proof. exact tree_total_lemma. Qed.
 Print Assumptions C10_tree_total.
+
+(* tree_rt, first half: the text of a well-formed tree (names are runs of alphabet characters other
+   than ( ) { } , #; a node has parentheses iff it has children; depth within the library's limit)
+   parses to exactly the node vector of that tree (names, positions, parent / last-child /
+   right-sibling indices). *)
+Theorem C10_tree_print_parse : forall t,
+  well_formed t = true -> depth t <= MAX_RECURSION_DEPTH ->
+  from_str_inner (print t) = Ok (tree_nodes t).
+Proof. exact tree_print_parse_lemma. Qed.
+Print Assumptions C10_tree_print_parse.
 
 (* ---- non-vacuity: BIP-380's own test vector "raw(deadbeef)#89f8spxm" *)
 Definition ex_payload : bytes := [114; 97; 119; 40; 100; 101; 97; 100; 98; 101; 101; 102; 41].
